@@ -2,7 +2,7 @@
 """Pretty-print C11 cases/traces: c11_decode.py CASES TRACES [index]"""
 import sys
 NP=3
-OPS=["Estab","ConnClosed","SubIn","SubOut","OpenFail","DialFail","HsIn","HsOut","Validate","Timer","CmdOpen","CmdClose","CmdForce","TaskDie","Release","KillChan","Gate"]
+OPS=["Estab","ConnClosed","SubIn","SubOut","OpenFail","DialFail","HsIn","HsOut","Validate","Timer","CmdOpen","CmdClose","CmdForce","TaskDie","Release","KillChan","Gate","Notify","NotifyDie"]
 EV=["Validate","Opened","Closed","OpenFailure","Notif"]
 CALL=["dial","open_substream","force_close"]
 def st(v):
